@@ -22,13 +22,24 @@ from harness.core import Corr, Disagreement, Failure, coq_eval, zlit, listlit
 ID = 'C40'
 SRC = 'hail/python/hailtop/aiotools/weighted_semaphore.py'
 COQ_PROPS = 'theories/SemWeighted/Props_C40.v'
-READY = False
+READY = True
 META = dict(
     design_ref='§5.C C40, §6',
     technique='Coq proof (invariant induction over arbitrary action lists, cancellation at every point) about a hand-written '
               'callback-level model of the FIXED WeightedSemaphore; correspondence with the real class on a deterministic asyncio loop',
-    level_text='',
-    level_note='',
+    level_text='Machine-checked theorems (Coq 8.16, closed under the global context) over ALL lists of Spawn(n)/Exit(i, ok|error)/Cancel(i)/Tick '
+               'actions (Tick = one asyncio callback; Cancel may fall between any two callbacks: before the first step, while queued, after '
+               'release() granted the waiter but before it resumed, inside the body, while leaving): value + weights of granted-and-not-yet-'
+               'released jobs = capacity after every action and (weights >= 0) never more than the capacity is granted; the events list is exactly '
+               'the set of blocked jobs; whenever the loop is idle every job is blocked / in its body / finished and value = capacity - weights '
+               'in bodies (= capacity once all holders exited normally, by error or by cancellation); a job cancelled at any moment is finished '
+               'at the next idle point, holding nothing and absent from the events list; every queued weight exceeds the free value (no lost '
+               'wake-up); idle with nobody in a body implies everybody finished. The theorems are about the code WITH fixes/C40.diff; the '
+               'model is tied to the source by running the real class on a single-callback asyncio driver and comparing value, events list, '
+               'every job position and the ready queue after every action (exhaustive small scope + seeded random).',
+    level_note='The unchanged repository code violates the property (cancelled waiter leaks capacity, reproduced; findings/C40.json); the check '
+               'reports that as VIOLATION with a replay until fixes/C40.diff is committed. The theorems are about the hand model; the tie to the '
+               'source is the (sampled) correspondence run. Trusted: Coq kernel, CPython asyncio, sortedcontainers, harness/aio/*.py, harness/impl/c40_weighted.py.',
     partial=False,
 )
 TRUSTED = ['harness/aio/detloop.py + harness/aio/tickloop.py (single-callback stepping of a real asyncio loop; CPython private attributes)',
@@ -195,7 +206,7 @@ def corpus_schedules():
 
 def all_schedules(ctx):
     out = [('corpus', s) for s in corpus_schedules()]
-    d = ctx.scale(8, 10)
+    d = ctx.scale(7, 9)
     out += [('exhaustive max2 w{1,2} 3 jobs', {'max': 2, 'acts': a}) for a in enum_schedules(2, [1, 2], 3, d)]
     out += [('exhaustive max3 w{2,3} 3 jobs err-exits', {'max': 3, 'acts': a}) for a in enum_schedules(3, [2, 3], 3, d - 1, err_exits=True)]
     for k in range(ctx.scale(400, 4000)):
